@@ -1,4 +1,5 @@
 import pandas as pd; import numpy as np
+from copy import copy
 from pyg_base._inspect import getargs, getcallarg, getcallargs, getargspec, call_with_callargs
 from pyg_base._types import is_ts, is_str, is_df, is_pd, is_series, is_arr, is_array, is_tuple, is_dict
 from pyg_base._decorators import wrapper
@@ -279,11 +280,33 @@ def _T(arg):
 
 _dtype_ints = (np.dtype(np.int32), np.dtype(np.int64), np.dtype(np.int16))
 
+def _replaced(a, values):
+    """
+    The list / tuple / dict a with its members replaced by values (a list, or a dict with the keys of a). 
+    If no member is replaced by another object this is a itself; otherwise a list or a dict is copied and the members that differ are assigned, 
+    so that a subclass whose constructor does not take a single iterable / mapping (defaultdict, Counter...) keeps its class and attributes.
+    
+    >>> from collections import defaultdict
+    >>> a = defaultdict(int, x = 1); assert _replaced(a, dict(x = 1)) is a
+    >>> b = _replaced(a, dict(x = 2.)); assert type(b) == defaultdict and b == dict(x = 2.) and b.default_factory is int and a == dict(x = 1)
+    >>> assert _replaced([1,2], [1,3]) == [1,3] and _replaced((1,2), [1,3]) == (1,3)
+    """
+    old = list(a.items()) if isinstance(a, dict) else list(enumerate(a))
+    changed = [(k, values[k]) for k, v in old if values[k] is not v]
+    if len(changed) == 0:
+        return a
+    elif isinstance(a, tuple):
+        return _like(a, values)
+    res = copy(a)
+    for k, v in changed:
+        res[k] = v
+    return res
+
 def _int2float(a):
     if isinstance(a, (list, tuple)):
-        return _like(a, [_int2float(v) for v in a])
+        return _replaced(a, [_int2float(v) for v in a])
     elif isinstance(a, dict):
-        return type(a)({k : _int2float(v) for k,v in a.items()})
+        return _replaced(a, {k : _int2float(v) for k,v in a.items()})
     if (is_series(a) or is_array(a)) and a.dtype in _dtype_ints:
         return a.astype(float)
     if is_df(a):
@@ -299,9 +322,9 @@ def _int2float(a):
 
 def _values(a):
     if isinstance(a, (list, tuple)):
-        return _like(a, [_values(v) for v in a])
+        return _replaced(a, [_values(v) for v in a])
     elif isinstance(a, dict):
-        return type(a)({k : _values(v) for k,v in a.items()})
+        return _replaced(a, {k : _values(v) for k,v in a.items()})
     if is_series(a):
         return a.values
     elif is_df(a):
@@ -320,7 +343,7 @@ def _np2pd(res, arg):
     elif isinstance(res, list):
         return [_np2pd(r, arg) for r in res]
     elif isinstance(res, dict):
-        return type(res)({k: _np2pd(r, arg) for k,r in res.items()})
+        return _replaced(res, {k: _np2pd(r, arg) for k,r in res.items()})
     if isinstance(res, np.ndarray):
         if len(res) == len(arg):
             if len(res.shape) == 2:
